@@ -72,12 +72,29 @@ def scratch_root() -> str:
         base = os.environ.get("JASM_VERIF_SCRATCH")
         if not base:
             base = "/dev/shm" if os.path.isdir("/dev/shm") and os.access("/dev/shm", os.W_OK) else tempfile.gettempdir()
-        _SCRATCH = tempfile.mkdtemp(prefix="jasm-verif-", dir=base)
+        _sweep_stale(base)
+        _SCRATCH = tempfile.mkdtemp(prefix=f"jasm-verif-{os.getpid()}-", dir=base)
         _SCRATCH_PID[0] = os.getpid()
     return _SCRATCH
 
 
 _SCRATCH_PID = [None]
+
+
+def _sweep_stale(base):
+    """Remove scratch directories left behind by harness processes that were killed (their pid is gone)."""
+    try:
+        for name in os.listdir(base):
+            if not name.startswith("jasm-verif-"):
+                continue
+            parts = name.split("-")
+            if len(parts) < 4 or not parts[2].isdigit():
+                continue
+            if os.path.exists(f"/proc/{parts[2]}"):
+                continue
+            shutil.rmtree(os.path.join(base, name), ignore_errors=True)
+    except OSError:
+        pass
 
 
 def cleanup_scratch() -> None:
